@@ -73,6 +73,8 @@ Theorem C11_generated_read : forall r offset n,
   else if gen_read_beyond r offset n then RErr 2
   else ROk n (gen_read_start r offset) (fst (gen_file_range (r_real r) offset n)) (snd (gen_file_range (r_real r) offset n)).
 Proof. exact read_generated. Qed.
+Theorem C11_generated_mask : gen_sideband_mask_is_boolean = true.
+Proof. exact sideband_mask_generated. Qed.
 Theorem C11_generated_lazy : gen_lazy_read_is_one_delayed_read = true.
 Proof. exact lazy_read_generated. Qed.
 
